@@ -266,6 +266,12 @@ def raise_value_error(msg):
   raise ValueError(msg)
 
 
+def raise_stop_iteration(msg):
+  """What next() of an exhausted iterator does: an exception that iteration protocols treat as 'end of input'."""
+  _count('raise_stop_iteration')
+  raise StopIteration(msg)
+
+
 def raise_timeout_error(msg):
   """The application's own TimeoutError (not a transport deadline)."""
   _count('raise_timeout_error')
